@@ -1,6 +1,9 @@
 package main
 
 import (
+	"os"
+	"golang.org/x/tools/go/ssa"
+	"golang.org/x/tools/go/packages"
 	"fmt"
 	"go/ast"
 	"go/constant"
@@ -90,6 +93,7 @@ func runC36(c *Ctx) {
 		pos                    token.Pos
 	}
 	layouts := map[string][]arm{}
+	semantic := false
 	if fd == nil {
 		c.Undecided("DetermineBlockType not found")
 		return
@@ -135,7 +139,9 @@ func runC36(c *Ctx) {
 			}
 		}
 		if inner == nil {
-			c.Undecided("DetermineBlockType: no version switch in layout %s", layout)
+			// the per-layout classification is not an inline version switch (helper, if-chain): the table is derived
+			// below by evaluating the function for every (layout, version) instead
+			semantic = true
 			continue
 		}
 		for _, icl := range inner.Body.List {
@@ -186,6 +192,12 @@ func runC36(c *Ctx) {
 				fmt.Sprintf("the case returning BlockType%s tests the range [%s, %s]: its bounds are not the Min and Max constants of %s, so versions outside %s's declared range are classified as %s", a.retEra, types.ExprString(call.Args[1]), types.ExprString(call.Args[2]), a.retEra, a.retEra, a.retEra))
 			layouts[layout] = append(layouts[layout], a)
 		}
+	}
+	if semantic || os.Getenv("C36_SEMANTIC") != "" {
+		c.determineBlockTypeSemantic(p, fd, outer, rangeOf)
+		c.checkConstructorSwitch("NewBlockFromCbor", true)
+		c.checkConstructorSwitch("NewBlockHeaderFromCbor", false)
+		return
 	}
 	c.Check(len(layouts) == 2, "dispatch-case-era", "ledger.DetermineBlockType:layouts", fd.Pos(), "two header layouts", fmt.Sprintf("%d header layouts recognised, expected 2", len(layouts)))
 	// exhaustive evaluation 0..64
@@ -432,4 +444,139 @@ func (c *Ctx) eraMethodResult(t types.Type) (pkg string, id int64, ok bool) {
 		}
 	}
 	return
+}
+
+// determineBlockTypeSemantic decides the same table as the arm-by-arm reading, from the type-checked program: for each
+// header layout (case of the layout switch) and each protocol major 0..64 the block type returned with a nil error is
+// computed by evaluating branch conditions (including inProtocolRange and classification helpers) under that
+// valuation; the era so named must contain the version in its declared range, and be the same for both layouts.
+func (c *Ctx) determineBlockTypeSemantic(p *packages.Package, fd *ast.FuncDecl, outer *ast.SwitchStmt, rangeOf map[string]c36Era) {
+	fn := c.SSAFunc("ledger", "DetermineBlockType")
+	// block type constant -> era name
+	eraOf := map[int64]string{}
+	for _, n := range p.Types.Scope().Names() {
+		if k, ok := p.Types.Scope().Lookup(n).(*types.Const); ok && strings.HasPrefix(n, "BlockType") {
+			if v, ok := constant.Int64Val(constant.ToInt(k.Val())); ok {
+				if _, known := rangeOf[strings.TrimPrefix(n, "BlockType")]; known {
+					eraOf[v] = strings.TrimPrefix(n, "BlockType")
+				}
+			}
+		}
+	}
+	// layout atom and values: the tag of the layout switch, as the SSA comparison facts name it
+	var layoutVals []int64
+	layoutName := map[int64]string{}
+	for _, cl := range outer.Body.List {
+		cc := cl.(*ast.CaseClause)
+		for _, e := range cc.List {
+			if v, ok := constInt(p.TypesInfo, e); ok {
+				layoutVals = append(layoutVals, v)
+				layoutName[v] = types.ExprString(e)
+			}
+		}
+	}
+	layoutAtom, verAtom := "", ""
+	verAtoms := map[string]bool{}
+	for _, ef := range edgeFacts(fn) {
+		if l, op, r, ok := splitRel(ef.Fact); ok && op == "==" && strings.HasPrefix(l, "len(") {
+			for _, v := range layoutVals {
+				if r == fmt.Sprint(v) {
+					layoutAtom = l
+				}
+			}
+		}
+	}
+	// version atom: what is handed to the range test, here or by way of a classification helper
+	for _, g := range closureFuncs(fn, 2) {
+		for _, ci := range allCalls(g) {
+			if cal := ci.Common().StaticCallee(); cal != nil && cal.Name() == "inProtocolRange" && len(ci.Common().Args) == 3 {
+				if g == fn {
+					verAtom = desc(ci.Common().Args[0])
+					verAtoms[verAtom] = true
+				} else if pa, ok := ci.Common().Args[0].(*ssa.Parameter); ok {
+					for _, cj := range allCalls(fn) {
+						if cj.Common().StaticCallee() == g {
+							for i, q := range g.Params {
+								if q == pa {
+									verAtom = desc(cj.Common().Args[i])
+									verAtoms[verAtom] = true
+								}
+							}
+						}
+					}
+				}
+			}
+		}
+	}
+	if layoutAtom == "" || verAtom == "" || len(layoutVals) != 2 {
+		c.Undecided("DetermineBlockType: layout/version atoms not identified (%q, %q, %d layouts)", layoutAtom, verAtom, len(layoutVals))
+		return
+	}
+	c.Ok("dispatch-case-era", "ledger.DetermineBlockType:layouts", fd.Pos(), "two header layouts")
+	perLayoutEra := map[string]map[string][]int64{}
+	for v := int64(0); v <= 64; v++ {
+		okV, detail, seen := true, "", ""
+		for _, L := range layoutVals {
+			val := map[string]int64{layoutAtom: L}
+			for a := range verAtoms {
+				val[a] = v
+			}
+			res, ok := constResults(fn, 0, val, 0)
+			if !ok {
+				c.Undecided("DetermineBlockType: result for layout %d, major %d is not a constant block type", L, v)
+				return
+			}
+			if len(res) > 1 {
+				okV = false
+				detail += fmt.Sprintf(" layout %s yields %d different block types;", layoutName[L], len(res))
+			}
+			for bt := range res {
+				e := eraOf[bt]
+				ln := layoutName[L]
+				if perLayoutEra[ln] == nil {
+					perLayoutEra[ln] = map[string][]int64{}
+				}
+				perLayoutEra[ln][e] = append(perLayoutEra[ln][e], v)
+				r, known := rangeOf[e]
+				if !known || v < r.min || v > r.max {
+					okV = false
+					detail += fmt.Sprintf(" layout %s classifies it as %s whose declared range is [%d,%d];", ln, e, r.min, r.max)
+				}
+				if seen != "" && seen != e {
+					okV = false
+					detail += fmt.Sprintf(" it maps to %s and %s depending on the layout;", seen, e)
+				}
+				seen = e
+			}
+		}
+		c.Check(okV, "dispatch-version-unique", fmt.Sprintf("ledger.DetermineBlockType:major=%d", v), fd.Pos(), "maps to at most one era, inside that era's declared range", fmt.Sprintf("protocol major %d:%s", v, detail))
+	}
+	var lns []string
+	for ln := range perLayoutEra {
+		lns = append(lns, ln)
+	}
+	sort.Strings(lns)
+	for _, ln := range lns {
+		var es []string
+		for e := range perLayoutEra[ln] {
+			es = append(es, e)
+		}
+		sort.Strings(es)
+		for _, e := range es {
+			vs := perLayoutEra[ln][e]
+			r := rangeOf[e]
+			full := int64(len(vs)) == r.max-r.min+1
+			c.Check(full, "dispatch-case-era", "ledger.DetermineBlockType:"+ln+":"+e, fd.Pos(), "the layout classifies exactly "+e+"'s own [Min,Max] as "+e,
+				fmt.Sprintf("layout %s classifies majors %v as %s, whose declared range is [%d,%d]", ln, vs, e, r.min, r.max))
+		}
+	}
+	// outside every declared range: an error
+	for _, L := range layoutVals {
+		val := map[string]int64{layoutAtom: L}
+		for a := range verAtoms {
+			val[a] = 200
+		}
+		res, _ := constResults(fn, 0, val, 0)
+		c.Check(len(res) == 0, "dispatch-case-era", "ledger.DetermineBlockType:"+layoutName[L]+":default", fd.Pos(), "a version outside every declared range is an error", "a version outside every declared range is classified instead of rejected")
+	}
 }
